@@ -56,6 +56,10 @@ TRUSTED = [
     "expression value fits each storage dtype it reads; row by row the product of all factor magnitudes and the literal "
     "scale fits the narrowest storage dtype of the term and 53 / 24 / 11 significant bits), so that any rounding or "
     "wrap-around observed is introduced by formulaic's own conversions, not by numpy's multiplication",
+    "known finding C02-F1 (integer wrap-around of products computed in a narrow integer storage dtype) is NOT mirrored in "
+    "the model, which stays exact: `classify` absorbs a case only if every wrong cell is precisely wrap-around of an "
+    "all-integer term (`wrapped_cells`), every other oracle check passes with those cells left out, and the model "
+    "disagrees with the implementation on such cells only, holding the exact product there",
     "not modelled: nested dictionaries inside an encoded factor (nothing in formulaic produces them), "
     "`metadata.encoded=True` pre-encoded factors, reuse of a stored `structure` (C04/C09), null handling / drop_rows (C06)",
 ]
@@ -74,6 +78,9 @@ RULE = (
     "(int8/16/32/64, uint8/16/32/64, float16/32/64; 32-bit and wider weighted up) holding full-width values (magnitudes up to "
     "the dtype's maximum, 2**52 for 64-bit; n/4 dyadics for floats; small values mixed in), terms cut back to the "
     "exact-arithmetic envelope (see TRUSTED). "
+    "wrap (max(4, n/45) cases + 2 corpus cases): a typed case with one extra all-numeric term over int8/16/32 / uint8/16/32 "
+    "columns (computing dtype <= 32 bits) whose exact product leaves the integer range for some row; judged by the same "
+    "oracle (exact product required), they fail on the current code and are classified as known finding C02-F1. "
     "columns: 1-4 factor dicts with 1-3 entries. simplify: up to 7 scoped terms over 4 factors. "
     "non-trivial = matrix case with an interaction term; distinct by canonical JSON"
 )
@@ -322,10 +329,10 @@ def holds(fr, dtype) -> bool:
     return fr.denominator == 1 and lo <= fr <= MAXABS[dtype]
 
 
-def gen_typed_values(rng, dtype, nrows):
+def gen_typed_values(rng, dtype, nrows, full=False):
     top, bits, is_float, _ = DTYPES[dtype]
     signed = not dtype.startswith("u")
-    kcol = bits if rng.random() < 0.5 else rng.randint(2, bits)
+    kcol = bits if (full or rng.random() < 0.5) else rng.randint(2, bits)
     quarter = is_float and rng.random() < 0.3  # dyadic fractions n/4 with the same number of significant bits
     out = []
     for _ in range(nrows):
@@ -438,6 +445,93 @@ def gen_typed_matrix_case(rng, tier):
     )
 
 
+# integer storage dtypes of known finding C02-F1 (products are computed in the promoted INTEGER dtype and wrap around)
+WRAP_DTYPES = ["int8", "int16", "int32", "uint8", "uint16", "uint32"]
+INT_LITERALS = ["2", "3", "4", "5"]
+
+
+def _int_range(dtype):
+    info = numpy.iinfo(dtype)
+    return int(info.min), int(info.max), int(info.bits)
+
+
+def _term_exact(atoms, data):
+    """(scale, per-row exact product of the numeric factors) of a term made of numeric atoms and literals only"""
+    exact = {k: numpy.array([Fraction(x) for x in v], dtype=object) for k, v in data["num"].items()}
+    scale, prod, cols = Fraction(1), [Fraction(1)] * data["nrows"], []
+    for a in atoms:
+        if a in LITERALS:
+            scale *= Fraction(a)
+            continue
+        c, fn, v, w = _source_atom(a, data)
+        cols += c
+        prod = [p * x for p, x in zip(prod, fn(exact, v, w)[None])]
+    return scale, prod, cols
+
+
+def leaves_integer_range(atoms, data) -> bool:
+    """does the exact product of this all-integer term leave the range of the integer dtype numpy promotes its
+    columns to (an integer-valued scale is multiplied in that dtype too, a fractional one in float64)?"""
+    scale, prod, cols = _term_exact(atoms, data)
+    lo, hi, _ = _int_range(numpy.result_type(*[numpy.dtype(data["dtype"][c]) for c in cols]))
+    s = scale if scale.denominator == 1 and not any("." in a for a in atoms if a in LITERALS) else Fraction(1)
+    return any(not lo <= s * p <= hi for p in prod)
+
+
+def gen_wrap_matrix_case(rng, tier):
+    """a typed case with ONE extra term outside the exact-arithmetic envelope with respect to integer range only: all
+    its factors are numeric columns / expressions over int8/16/32 or uint8/16/32 columns (each expression value still
+    fits its storage dtype), optionally scaled, and for some row the exact product leaves the range of the integer
+    dtype the columns promote to. The property requires the exact product there (known finding C02-F1)."""
+    maxrows = 6 if tier == "quick" else 20
+    data = gen_typed_data(rng, rng.randint(1, maxrows))
+    ids = [n for n in sorted(data["num"]) if n.isidentifier()]
+    cols = rng.sample(ids, min(len(ids), rng.choice([1, 2, 2, 3])))
+    dts = [rng.choice(WRAP_DTYPES) for _ in cols]
+    if numpy.result_type(*dts).itemsize > 4:
+        # uint32 next to a signed column promotes to int64, whose wrapped products are not exact in the float64
+        # observables of this harness: keep the computing dtype at 32 bits or fewer
+        dts = ["int32" if d == "uint32" else d for d in dts]
+    for name, dt in zip(cols, dts):
+        data["dtype"][name] = dt
+        data["num"][name] = gen_typed_values(rng, dt, data["nrows"], full=True)
+    for attempt in range(3):
+        if attempt == 2:
+            # dtypes whose promotion has room for the product (int8 x uint16 -> int32): one narrow dtype for the term
+            for name in cols:
+                data["dtype"][name] = min(dts, key=lambda d: numpy.dtype(d).itemsize)
+                data["num"][name] = gen_typed_values(rng, data["dtype"][name], data["nrows"], full=True)
+                data["num"][name][0] = fstr(DTYPES[data["dtype"][name]][0])
+        atoms = []
+        for name in cols:
+            src = rng.choice(["{v}", "{v}", "I({v}+1)", "{{{v}*2}}"]).format(v=name)
+            atoms.append(src if in_envelope([src], data) else name)
+        lits = rng.sample(INT_LITERALS, rng.choice([1, 2])) if len(cols) == 1 else rng.sample(LITERALS[:-1], rng.choice([0, 0, 1, 2]))
+        for lit in lits:
+            atoms.insert(rng.randrange(len(atoms) + 1), lit)
+        if leaves_integer_range(atoms, data):
+            break
+        # make the first row overflow: the largest value the storage dtype holds, in every column of the term
+        for name in cols:
+            data["num"][name][0] = fstr(DTYPES[data["dtype"][name]][0])
+    key = frozenset(a for a in atoms if a not in LITERALS)
+    base = gen_formula(rng, data, accept=lambda t: in_envelope(t, data) and frozenset(a for a in t if a not in LITERALS) != key)
+    parts = base.split(" + ")
+    first = 1 if parts[0] in ("0", "1", "-1") else 0
+    parts = [p for i, p in enumerate(parts) if i < first or frozenset(a for a in p.split(":") if a not in LITERALS) != key]
+    parts.insert(rng.randint(first, len(parts)), ":".join(atoms))
+    return dict(
+        kind="matrix",
+        data=data,
+        formula=" + ".join(parts),
+        efr=rng.random() < 0.5,
+        output=rng.choice(["pandas", "numpy", "sparse"]),
+        cluster=rng.random() < 0.3,
+        mat=rng.choice(["pandas", "narwhals"]),
+        wrap=True,
+    )
+
+
 def gen_matrix_case(rng, tier):
     maxrows = 6 if tier == "quick" else 40
     nrows = rng.randint(1, maxrows) if rng.random() < 0.8 else rng.randint(1, 6)
@@ -501,6 +595,8 @@ def cases(rng, tier):
         yield gen_matrix_case(rng, tier)
     for i in range(n // 2):
         yield gen_typed_matrix_case(rng, tier)
+    for i in range(max(4, n // 45)):
+        yield gen_wrap_matrix_case(rng, tier)
     for i in range(n // 4):
         yield gen_columns_case(rng)
     for i in range(n // 4):
@@ -518,7 +614,7 @@ def _max_literals(formula):
 
 def describe(c):
     if c["kind"] == "matrix":
-        typed = ",typed" if c["data"].get("dtype") else ""
+        typed = ",wrap" if c.get("wrap") else ",typed" if c["data"].get("dtype") else ""
         return f"matrix{typed},{c['mat']},{c['output']},efr={int(c['efr'])},maxlit={_max_literals(c['formula'])}"
     return c["kind"]
 
@@ -767,7 +863,9 @@ def is_inexact(c):
     return any(s in c.get("formula", "") for s in INEXACT)
 
 
-def agree_matrix(c, o, m, values=True):
+def agree_matrix(c, o, m, values=True, cells=None):
+    """`cells` (a list): every value disagreement is recorded there as (column index, row, model value) and the
+    first one is reported at the end; any other kind of disagreement is reported at once and leaves it empty"""
     if "error" in o:
         return f"implementation raised {o['error']} on a valid formula: {o.get('msg', '')}"
     if "error" in m:
@@ -785,13 +883,21 @@ def agree_matrix(c, o, m, values=True):
     if mn != on:
         return f"column names differ: model {mn} vs impl {on}"
     inexact = is_inexact(c)
+    first = None
     for a, b in zip(m["columns"], o["columns"]):
         if len(a["values"]) != len(b["values"]):
+            if cells is not None:
+                del cells[:]
             return f"column {b['name']}: length {len(a['values'])} vs {len(b['values'])}"
+    for j, (a, b) in enumerate(zip(m["columns"], o["columns"])):
         for i, (x, y) in enumerate(zip(a["values"], b["values"])):
             if not _values_agree(x, y, inexact):
-                return f"column {b['name']} row {i}: model {x} vs impl {y}"
-    return None
+                msg = f"column {b['name']} row {i}: model {x} vs impl {y}"
+                if cells is None:
+                    return msg
+                cells.append([j, i, x])
+                first = first or msg
+    return first
 
 
 def agree(c, o, m):
@@ -803,7 +909,13 @@ def agree(c, o, m):
     if k == "matrix":
         if "error" in o:
             return None  # reported by the oracle
-        return agree_matrix(c, o, m)
+        cells = []
+        why = agree_matrix(c, o, m, cells=cells)
+        if why is not None:
+            # for classify(): WHAT the model disagrees about (the driver calls classify with the oracle's reason when
+            # both the oracle and the correspondence object, so a disagreement must not hide behind a known finding)
+            o["_corr"] = {"cells": cells} if cells else {"other": why}
+        return why
     if k == "badname":
         if o.get("error") == "FactorEvaluationError" and m.get("error") == "KeyError":
             return None
@@ -851,6 +963,13 @@ def _close(a, b, inexact):
     return bool(numpy.array_equal(a, b))
 
 
+def _without(g, v, j, excuse):
+    rows = [i for i in range(len(g)) if (j, i) in excuse] if excuse and len(g) == len(v) else []
+    if not rows:
+        return g, v
+    return numpy.delete(numpy.asarray(g, dtype=float), rows), numpy.delete(numpy.asarray(v, dtype=float), rows)
+
+
 def _levels(cinfo, drop_unused=False):
     present = sorted({cinfo["levels"][i] for i in cinfo["codes"]})
     if cinfo["declared"] and not drop_unused:
@@ -875,7 +994,9 @@ def _full_encoding(expr, data, mat="pandas"):
     return "num", [(f"{expr}[{k}]", numpy.asarray(v, dtype=float)) for k, v in cols.items()]
 
 
-def oracle_matrix(c, o):
+def oracle_matrix(c, o, excuse=frozenset()):
+    """`excuse`: cells (column index, row) left out of the value comparison (used by classify() only, to establish
+    that NOTHING but the cells of a known finding is wrong with a case)"""
     if "error" in o:
         return f"materialisation raised {o['error']}: {o.get('msg', '')}"
     if "shape_mismatch" in o:
@@ -921,8 +1042,8 @@ def oracle_matrix(c, o):
             expect = list(dd.items())
         if [nm for nm, _ in expect] != [nm for nm, _ in got]:
             return f"rank reduction off: expected columns {[nm for nm, _ in expect]}, got {[nm for nm, _ in got]}"
-        for (nm, v), (_, g) in zip(expect, got):
-            if not _close(g, v, inexact):
+        for j, ((nm, v), (_, g)) in enumerate(zip(expect, got)):
+            if not _close(*_without(g, v, j, excuse), inexact):
                 return f"rank reduction off: column {nm} is {g.tolist()}, the Kronecker product of the full encodings times the scale is {v.tolist()}"
         return None
     # --- rank reduction on: every emitted column obeys its label
@@ -979,8 +1100,8 @@ def oracle_matrix(c, o):
         expect = list(dd.items())
     if [nm for nm, _ in expect] != [nm for nm, _ in got]:
         return f"expected columns {[nm for nm, _ in expect]}, got {[nm for nm, _ in got]}"
-    for (nm, v), (_, g) in zip(expect, got):
-        if not _close(g, v, inexact):
+    for j, ((nm, v), (_, g)) in enumerate(zip(expect, got)):
+        if not _close(*_without(g, v, j, excuse), inexact):
             return f"column {nm} is {g.tolist()} but the product of the encoded factor columns in its label times the scale is {v.tolist()}"
     for nm, g in got:
         if nm == "Intercept" and any(tuple(f["x"] for f in t if f["m"] == "literal") == ("1",) and len(t) == 1 for t in o["terms"]):
@@ -1015,8 +1136,116 @@ def oracle(c, o):
     return None
 
 
-def classify(c, o, why):
+def _norm_atom(expr, data):
+    """normalised numeric factor expression -> (columns it reads, exact semantics, v, w) | None (cf. atom_semantics)"""
+    names = sorted(data["num"])
+    for src, (norm, fn) in NUM_ATOMS.items():
+        for v in names:
+            for w in names:
+                if norm.format(v=v, w=w) == expr:
+                    return ([v, w] if "{w}" in src else [v]), fn, v, w
     return None
+
+
+def wrapped_cells(c, o):
+    """The cells of the output that show known finding C02-F1 and nothing else, as {(column index, row): exact value}
+    - or None when the exact expectation cannot be lined up with the output.
+
+    Everything is recomputed in exact rational arithmetic from the DATA (numeric factors) and the implementation's
+    encoded categorical columns, in the order of the recorded structure. A cell qualifies iff
+      * its column belongs to a scoped term ALL of whose factors are numeric factors over columns stored in integer
+        dtypes (no categorical factor; literals only through the scale s),
+      * the observed value g differs from the exact product s*P (P = product of the factor values, an integer),
+      * P or s*P lies outside the range of a narrowest (fewest bits, b) storage dtype the term reads, and
+      * g is precisely wrap-around: s integral -> g is an integer with g = s*P (mod 2**b) (every step, the scale
+        included, was carried out in an integer dtype of >= b bits); s fractional -> g/s is an integer w with
+        w = P (mod 2**b) (the factors wrapped, the float scale was applied afterwards)."""
+    if c.get("kind") != "matrix" or "error" in o or "shape_mismatch" in o or "structure" not in o:
+        return None
+    data, n = c["data"], c["data"]["nrows"]
+    dtypes = data.get("dtype", {})
+    exact = {k: numpy.array([Fraction(x) for x in v], dtype=object) for k, v in data["num"].items()}
+    cols = []  # (name, exact values, integer-term info | None)
+    for s in o["structure"]:
+        tcols = {}
+        for st in s["scoped"]:
+            scale = Fraction(st["scale"])
+            if not st["factors"]:
+                tcols["Intercept"] = ([scale] * n, None)
+                continue
+            facs, read, allint = [], [], True
+            for e, r in st["factors"]:
+                na = _norm_atom(e, data)
+                sem = atom_semantics(e, data)
+                if na is not None and sem is not None and sem[0] == "num":
+                    fields = na[1](exact, na[2], na[3])
+                    facs.append([(e if k is None else f"{e}[{k}]", list(v)) for k, v in fields.items()])
+                    read += na[0]
+                else:
+                    allint = False
+                    facs.append([(nm, [Fraction(x) for x in v]) for nm, v in o["flat"][e + ("-" if r else "")]])
+            allint = allint and all(dtypes.get(k, "float64") in DTYPES and not DTYPES[dtypes.get(k, "float64")][2] for k in read)
+            for rev in itertools.product(*reversed(facs)):
+                tup = rev[::-1]
+                prod = [Fraction(1)] * n
+                for _, vals in tup:
+                    if len(vals) != n:
+                        return None
+                    prod = [p * x for p, x in zip(prod, vals)]
+                info = dict(scale=scale, prod=prod, dtypes=sorted({dtypes[k] for k in read})) if allint else None
+                tcols[":".join(nm for nm, _ in tup)] = ([scale * p for p in prod], info)
+        if list(tcols) != s["columns"]:
+            return None
+        cols += [(nm, v, info) for nm, (v, info) in tcols.items()]
+    if as_dict(c):
+        cols = list({nm: (nm, v, info) for nm, v, info in cols}.values())
+    if [nm for nm, _, _ in cols] != [e["name"] for e in o["columns"]]:
+        return None
+    out = {}
+    for j, ((nm, want, info), e) in enumerate(zip(cols, o["columns"])):
+        if info is None or len(e["values"]) != n:
+            continue
+        ranges = [_int_range(dt) for dt in info["dtypes"]]
+        b = min(r[2] for r in ranges)
+        narrow = [r for r in ranges if r[2] == b]
+        s = info["scale"]
+        for i in range(n):
+            g, p = Fraction(e["values"][i]), info["prod"][i]
+            if g == want[i]:
+                continue
+            if not any(not lo <= x <= hi for lo, hi, _ in narrow for x in (p, s * p)):
+                continue
+            if s.denominator == 1:
+                ok = g.denominator == 1 and (g - s * p) % 2**b == 0
+            else:
+                w = g / s
+                ok = w.denominator == 1 and (w - p) % 2**b == 0
+            if ok:
+                out[(j, i)] = want[i]
+    return out
+
+
+def classify(c, o, why):
+    """C02-F1 for exactly: at least one cell is integer wrap-around in the sense of `wrapped_cells`, every other
+    check of the oracle passes with those cells left out, and wherever the (exact) model disagrees with the
+    implementation it is on such a cell and the model holds the exact product."""
+    try:
+        if c.get("kind") != "matrix" or not isinstance(o, dict) or "harness_exception" in o:
+            return None
+        cells = wrapped_cells(c, o)
+        if not cells:
+            return None
+        corr = o.get("_corr") or {}
+        if "other" in corr:
+            return None
+        for j, i, x in corr.get("cells", []):
+            if (j, i) not in cells or Fraction(x) != cells[(j, i)]:
+                return None
+        if oracle_matrix(c, o, excuse=frozenset(cells)) is not None:
+            return None
+        return "C02-F1"
+    except Exception:
+        return None
 
 
 LEVEL_TEXT = (
@@ -1027,7 +1256,9 @@ LEVEL_TEXT = (
     "the base product, and that with rank reduction off each term yields the row-wise Kronecker product of the full "
     "encodings (first factor fastest). The model is tied to the code by a differential correspondence on every run "
     "(labels and exact values of whole matrices, numeric columns in every numpy storage dtype with full-width values "
-    "included); a data-level oracle recomputes the matrix independently."
+    "included); a data-level oracle recomputes the matrix independently. Known finding C02-F1: products of integer-dtype "
+    "columns wrap around in the narrow integer dtype (the theorems are about exact products; such cells are reported as "
+    "KNOWN-FINDING, never silently accepted)."
 )
 LEVEL_NOTE = (
     "Trusted: Lean kernel + propext/Classical.choice/Quot.sound; the hand model of base.py/pandas.py/narwhals.py "
